@@ -21,16 +21,16 @@ import (
 // C09 — paging through search results neither skips nor repeats anything.
 
 type pageRec struct {
-	CaseID     string          `json:"case_id"`
-	Constraint json.RawMessage `json:"constraint"`
-	Sort       string          `json:"sort"`
-	Limit      int             `json:"limit"`
-	Mode       string          `json:"mode"`
-	Around     string          `json:"around,omitempty"`
-	Full       []string        `json:"full_ordered_result"`
-	Pages      [][]string      `json:"pages,omitempty"`
-	Tokens     []string        `json:"continue_tokens,omitempty"`
-	Window     []string        `json:"around_window,omitempty"`
+	CaseID     string            `json:"case_id"`
+	Constraint json.RawMessage   `json:"constraint"`
+	Sort       string            `json:"sort"`
+	Limit      int               `json:"limit"`
+	Mode       string            `json:"mode"`
+	Around     string            `json:"around,omitempty"`
+	Full       []string          `json:"full_ordered_result"`
+	Pages      [][]string        `json:"pages,omitempty"`
+	Tokens     []string          `json:"continue_tokens,omitempty"`
+	Window     []string          `json:"around_window,omitempty"`
 	Times      map[string]string `json:"times_of_results,omitempty"`
 }
 
@@ -500,6 +500,7 @@ func (p *pager) checkContinue(st search.SortType, lim int, full []blob.Ref) {
 		return
 	}
 	// exactly-once, in order
+	feature = divergenceFeature(w, full, got, eff, feature)
 	if len(got) != len(full) {
 		seen := map[blob.Ref]int{}
 		for _, b := range got {
@@ -551,37 +552,64 @@ func impliesNodeType(c *search.Constraint) bool {
 	return false
 }
 
+// divergenceFeature refines timeFeature for a paged sequence that differs from the full list: if the
+// first difference lies in a run of results with equal creation instants that were written in more
+// than one zone notation, the class is "tie-across-zone-notations".
+func divergenceFeature(w *sworld, full, got []blob.Ref, st search.SortType, whole string) string {
+	if st != search.CreatedDesc || whole == "pre1970" {
+		return whole
+	}
+	i := 0
+	for i < len(full) && i < len(got) && full[i] == got[i] {
+		i++
+	}
+	if i >= len(full) {
+		i = len(full) - 1
+	}
+	if i < 0 {
+		return whole
+	}
+	ti, _ := w.anyTime(full[i])
+	zones := map[string]bool{}
+	for j := i; j < len(full); j++ {
+		if t, _ := w.anyTime(full[j]); !t.Equal(ti) {
+			break
+		}
+		zones[w.anyZone(full[j])] = true
+	}
+	for j := i - 1; j >= 0; j-- {
+		if t, _ := w.anyTime(full[j]); !t.Equal(ti) {
+			break
+		}
+		zones[w.anyZone(full[j])] = true
+	}
+	if len(zones) > 1 {
+		return "tie-across-zone-notations"
+	}
+	return whole
+}
+
 // timeFeature classifies the times of the result list for signatures.
 func timeFeature(w *sworld, full []blob.Ref, st search.SortType) string {
 	key := w.anyTime
 	if st == search.LastModifiedDesc {
 		key = w.modtime
 	}
-	pre, tie, zoneTie := false, false, false
-	seen := map[int64]string{}
+	pre, tie := false, false
+	seen := map[int64]bool{}
 	for _, b := range full {
 		t, _ := key(b)
 		if t.UTC().Year() < 1970 {
 			pre = true
 		}
-		z := "Z"
-		if st != search.LastModifiedDesc {
-			z = w.anyZone(b)
-		}
-		if z0, ok := seen[t.UnixNano()]; ok {
+		if seen[t.UnixNano()] {
 			tie = true
-			if z0 != z {
-				zoneTie = true
-			}
-		} else {
-			seen[t.UnixNano()] = z
 		}
+		seen[t.UnixNano()] = true
 	}
 	switch {
 	case pre:
 		return "pre1970"
-	case zoneTie:
-		return "tie-across-zone-notations"
 	case tie:
 		return "tie"
 	}
